@@ -275,6 +275,90 @@ theorem trimDot_map_lower (s : Bytes) : trimDot (s.map lower) = (trimDot s).map 
     · have : lower b ≠ dot := fun e => hb ((lower_eq_dot b).mp e)
       simp [hb, this]
 
+/-! #### Lower-casing touches the 26 upper-case letters and nothing else
+
+`norm` is tied to the code's `NormalizeDomain` by `Refine.C12.normalize_refines`. The statements
+below say, for every byte, what "lower-cased" means in the property: digits, `-`, `_`, the bytes
+next to the letter ranges (`@ [ \ ] ^ _` and the back-quote, `{ | } ~`, DEL) and every other non-letter
+are left alone, and two different bytes are identified only if they are the two cases of one letter. -/
+
+theorem lower_of_not_upper (b : UInt8) (h : ¬ (65 ≤ b ∧ b ≤ 90)) : lower b = b := by
+  simp [lower, h]
+
+theorem lower_of_upper (b : UInt8) (h : 65 ≤ b ∧ b ≤ 90) : lower b = b + 32 := by
+  simp [lower, h]
+
+theorem lower_not_upper (b : UInt8) : ¬ (65 ≤ lower b ∧ lower b ≤ 90) := by
+  unfold lower
+  split
+  · rename_i h
+    intro h'
+    have h1 := UInt8.le_iff_toNat_le.mp h.1
+    have h2 := UInt8.le_iff_toNat_le.mp h.2
+    have h3 := UInt8.le_iff_toNat_le.mp h'.2
+    rw [UInt8.toNat_add] at h3
+    simp at h1 h2 h3; omega
+  · rename_i h; exact h
+
+/-- **Lower-casing never conflates two different bytes unless they are the two cases of one
+letter** (so `_` and DEL, `@` and the back-quote, `[` and `{` stay different). -/
+theorem lower_eq_lower (a b : UInt8) (h : lower a = lower b) :
+    a = b ∨ ((65 ≤ a ∧ a ≤ 90) ∧ b = a + 32) ∨ ((65 ≤ b ∧ b ≤ 90) ∧ a = b + 32) := by
+  by_cases ha : 65 ≤ a ∧ a ≤ 90 <;> by_cases hb : 65 ≤ b ∧ b ≤ 90
+  · left
+    rw [lower_of_upper a ha, lower_of_upper b hb] at h
+    exact (UInt8.add_left_inj 32).mp h
+  · right; left
+    rw [lower_of_upper a ha, lower_of_not_upper b hb] at h
+    exact ⟨ha, h.symm⟩
+  · right; right
+    rw [lower_of_not_upper a ha, lower_of_upper b hb] at h
+    exact ⟨hb, h⟩
+  · left
+    rw [lower_of_not_upper a ha, lower_of_not_upper b hb] at h
+    exact h
+
+theorem mem_trimDot (s : Bytes) (b : UInt8) (h : b ∈ trimDot s) : b ∈ s := by
+  unfold trimDot at h
+  split at h
+  · exact List.dropLast_subset _ h
+  · exact h
+
+/-- A name without upper-case letters is only stripped of its dot (the "already lower case" path:
+nothing else may change, whatever other bytes the name holds). -/
+theorem norm_no_upper (s : Bytes) (h : ∀ b ∈ s, ¬ (65 ≤ b ∧ b ≤ 90)) : norm s = trimDot s := by
+  unfold norm
+  have : ∀ b ∈ trimDot s, lower b = b := fun b hb => lower_of_not_upper b (h b (mem_trimDot s b hb))
+  rw [List.map_congr_left this]
+  simp
+
+/-- The normalised name has no upper-case letter left. -/
+theorem norm_has_no_upper (s : Bytes) : ∀ b ∈ norm s, ¬ (65 ≤ b ∧ b ≤ 90) := by
+  intro b hb
+  unfold norm at hb
+  obtain ⟨a, _, rfl⟩ := List.mem_map.mp hb
+  exact lower_not_upper a
+
+/-- Byte by byte: position `i` of the normalised name is the lower-cased byte at position `i`
+of the name without its trailing dot - also behind the first upper-case letter. -/
+theorem norm_getElem? (s : Bytes) (i : Nat) : (norm s)[i]? = ((trimDot s)[i]?).map lower := by
+  simp [norm]
+
+/-- **Two spellings are the same name only if they differ in letter case alone**: equal
+normal forms have the same length and, position by position, the same byte or the two cases of
+one letter. -/
+theorem norm_eq_bytes (s t : Bytes) (h : norm s = norm t) :
+    (trimDot s).length = (trimDot t).length ∧
+    ∀ (i : Nat) (a b : UInt8), (trimDot s)[i]? = some a → (trimDot t)[i]? = some b →
+      a = b ∨ ((65 ≤ a ∧ a ≤ 90) ∧ b = a + 32) ∨ ((65 ≤ b ∧ b ≤ 90) ∧ a = b + 32) := by
+  refine ⟨?_, ?_⟩
+  · have := congrArg List.length h
+    simpa [norm] using this
+  · intro i a b ha hb
+    have := congrArg (fun l => l[i]?) h
+    simp only [norm_getElem?, ha, hb, Option.map_some, Option.some.injEq] at this
+    exact lower_eq_lower a b this
+
 /-- **Case does not matter**: a name (or full/domain/keyword rule) and its
 lower-cased spelling normalise to the same string. -/
 theorem norm_case (s : Bytes) : norm (s.map lower) = norm s := by
@@ -391,5 +475,16 @@ example : m0.candidates reNone (b [88, 46] ++ abExampleCom ++ [46]) = [2] := by 
 example : m0.candidates reNone notexampleCom = [4] := by decide        -- not a label boundary: only the keyword matches
 example : (m0.add .full (b [69, 88, 65, 77, 80, 76, 69, 46, 67, 79, 77, 46]) 3).candidates reNone exampleCom = [3] := by decide -- "EXAMPLE.COM." full rule wins
 example : m0.candidates reNone (b [99, 111, 109]) = [] := by decide
+
+/-! Service labels (`_tcp`) with mixed case on either side, and the bytes lower-casing must not touch:
+rules domain:example.com=1, domain:_TCP.Example.com.=5. -/
+def tcpExampleCom : Bytes := b [95, 84, 67, 80, 46, 69, 120, 97, 109, 112, 108, 101, 46, 99, 111, 109, 46]
+def m1 : Mix Nat := ((({} : Mix Nat).add .domain exampleCom 1).add .domain tcpExampleCom 5)
+-- "Host._tcp.EXAMPLE.com.": the underscore behind an upper-case letter is still an underscore
+example : m1.candidates reNone (b [72, 111, 115, 116, 46, 95, 116, 99, 112, 46, 69, 88, 65, 77, 80, 76, 69, 46, 99, 111, 109, 46]) = [5] := by decide
+-- "Host.\x7ftcp.example.com": DEL is not an underscore, only the shorter rule describes the name
+example : m1.candidates reNone (b [72, 111, 115, 116, 46, 127, 116, 99, 112, 46] ++ exampleCom) = [1] := by decide
+-- "A@[\]^_`{-09Z." -> "a@[\]^_`{-09z"
+example : norm (b [65, 64, 91, 92, 93, 94, 95, 96, 123, 45, 48, 57, 90, 46]) = b [97, 64, 91, 92, 93, 94, 95, 96, 123, 45, 48, 57, 122] := by decide
 
 end Props.C12
